@@ -568,6 +568,7 @@ fn main() {
         ("token_fns", "TokenFns.lean", gen_token_fns),
         ("seed_sizes", "SeedConsts.lean", gen_seed_sizes),
         ("seed_tags", "FormatConsts.lean", gen_seed_tags),
+        ("listview_fns", "ListViewFns.lean", gen_listview_fns),
     ];
     let mut failed = false;
     for (name, file, g) in groups {
@@ -1083,4 +1084,218 @@ fn gen_seed_tags(repo: &Path, out: &Path) {
     writeln!(s, "def resolveArmKinds : List Nat := [{}]", kinds.join(", ")).unwrap();
     writeln!(s, "end Gen.Format").unwrap();
     write_if_changed(&out.join("FormatConsts.lean"), &s);
+}
+
+// ---------------------------------------------------------------------------------------------
+// ListView layout arithmetic (`header_padding`, `size_of`, `calculate_layout`): functions returning
+// `Result<usize, ProgramError>` (or a `Layout` of two ranges), translated statement by statement.
+// The element and prefix types enter only through `size_of::<T>()`, `align_of::<T>()`, `size_of::<L>()`,
+// `align_of::<L>()`, which become the parameters `sizeT alignT sizeL alignL`.
+// ---------------------------------------------------------------------------------------------
+struct LvCtx<'a> { nats: Vec<String>, errs: &'a std::collections::BTreeMap<String, i128>, fns: &'a [&'a str] }
+
+fn generic_arg(seg: &syn::PathSegment) -> Option<String> {
+    if let syn::PathArguments::AngleBracketed(a) = &seg.arguments {
+        if let Some(syn::GenericArgument::Type(syn::Type::Path(t))) = a.args.first() {
+            return Some(t.path.segments.last()?.ident.to_string());
+        }
+    }
+    None
+}
+
+fn lv_num(e: &syn::Expr, cx: &LvCtx) -> String {
+    let e = unparen(e);
+    match e {
+        syn::Expr::Lit(l) => match &l.lit {
+            syn::Lit::Int(i) => format!("(RX.lit {})", i.base10_parse::<u128>().unwrap_or_else(|_| fail("integer literal"))),
+            _ => fail("list-view: unsupported literal"),
+        },
+        syn::Expr::Path(p) => {
+            let name = p.path.segments.last().unwrap().ident.to_string();
+            if cx.nats.contains(&name) { format!("(RX.lit {name})") } else { fail(&format!("list-view: unknown numeric name `{name}`")) }
+        }
+        syn::Expr::Call(c) => {
+            let syn::Expr::Path(p) = &*c.func else { fail("list-view: unsupported call") };
+            let seg = p.path.segments.last().unwrap();
+            match (seg.ident.to_string().as_str(), generic_arg(seg).as_deref()) {
+                ("size_of", Some("T")) => "(RX.lit sizeT)".into(),
+                ("size_of", Some("L")) => "(RX.lit sizeL)".into(),
+                ("align_of", Some("T")) => "(RX.lit alignT)".into(),
+                ("align_of", Some("L")) => "(RX.lit alignL)".into(),
+                (other, _) => fail(&format!("list-view: unsupported call `{other}`")),
+            }
+        }
+        // Self::header_padding()?
+        syn::Expr::Try(t) => {
+            if let syn::Expr::Call(c) = unparen(&t.expr) {
+                if let syn::Expr::Path(p) = &*c.func {
+                    let f = p.path.segments.last().unwrap().ident.to_string();
+                    if cx.fns.contains(&f.as_str()) && c.args.is_empty() { return format!("({f} sizeT alignT sizeL alignL)"); }
+                }
+            }
+            fail("list-view: unsupported `?` expression")
+        }
+        syn::Expr::MethodCall(m) if m.args.len() == 1 => {
+            let f = match m.method.to_string().as_str() {
+                "wrapping_rem" => "RX.wrappingRem", "wrapping_sub" => "RX.wrappingSub", "saturating_add" => "RX.saturatingAdd",
+                other => fail(&format!("list-view: unsupported numeric method `{other}`")),
+            };
+            format!("({f} {} {})", lv_num(&m.receiver, cx), lv_num(&m.args[0], cx))
+        }
+        _ => fail("list-view: unsupported numeric expression form"),
+    }
+}
+
+fn lv_bool(e: &syn::Expr, cx: &LvCtx) -> String {
+    let e = unparen(e);
+    match e {
+        syn::Expr::Binary(b) if is_bool_op(&b.op) => {
+            let f = if matches!(b.op, syn::BinOp::And(_)) { "RX.and" } else { "RX.or" };
+            format!("({f} {} (fun _ => {}))", lv_bool(&b.left, cx), lv_bool(&b.right, cx))
+        }
+        syn::Expr::Binary(b) => {
+            let f = match b.op {
+                syn::BinOp::Eq(_) => "RX.eq", syn::BinOp::Ne(_) => "RX.ne", syn::BinOp::Lt(_) => "RX.lt",
+                syn::BinOp::Le(_) => "RX.le", syn::BinOp::Gt(_) => "RX.gt", syn::BinOp::Ge(_) => "RX.ge",
+                _ => fail("list-view: unsupported comparison"),
+            };
+            format!("({f} {} {})", lv_num(&b.left, cx), lv_num(&b.right, cx))
+        }
+        _ => fail("list-view: unsupported condition form"),
+    }
+}
+
+fn lv_err(e: &syn::Expr, cx: &LvCtx) -> String {
+    let e = unparen(e);
+    // `X.into()`
+    let inner = match e { syn::Expr::MethodCall(m) if m.method == "into" && m.args.is_empty() => unparen(&m.receiver), other => other };
+    let syn::Expr::Path(p) = inner else { fail("list-view: unsupported error expression") };
+    let segs: Vec<String> = p.path.segments.iter().map(|s| s.ident.to_string()).collect();
+    match (segs.first().map(|s| s.as_str()), segs.last().map(|s| s.as_str())) {
+        (Some("ProgramError"), Some("InvalidArgument")) => "Err.invalidArgument".into(),
+        (Some("ProgramError"), Some("ArithmeticOverflow")) => "Err.arithmeticOverflow".into(),
+        (Some("ProgramError"), Some("InvalidAccountData")) => "Err.invalidAccountData".into(),
+        (Some("ListViewError"), Some(v)) => format!("(Err.custom {})", cx.errs.get(v).unwrap_or_else(|| fail(&format!("ListViewError::{v} not found")))),
+        _ => fail(&format!("list-view: unsupported error `{}`", segs.join("::"))),
+    }
+}
+
+/// an `Option<usize>` chain: checked_mul / checked_add / and_then(|x| …)
+fn lv_opt(e: &syn::Expr, cx: &LvCtx) -> String {
+    let e = unparen(e);
+    let syn::Expr::MethodCall(m) = e else { fail("list-view: unsupported Option expression") };
+    match m.method.to_string().as_str() {
+        "checked_mul" => format!("(RX.checkedMul {} {})", lv_num(&m.receiver, cx), lv_num(&m.args[0], cx)),
+        "checked_add" => format!("(RX.checkedAdd {} {})", lv_num(&m.receiver, cx), lv_num(&m.args[0], cx)),
+        "and_then" => {
+            let syn::Expr::Closure(c) = unparen(&m.args[0]) else { fail("list-view: and_then without a closure") };
+            let syn::Pat::Ident(id) = &c.inputs[0] else { fail("list-view: closure parameter") };
+            let mut nats = cx.nats.clone();
+            nats.push(id.ident.to_string());
+            let cx2 = LvCtx { nats, errs: cx.errs, fns: cx.fns };
+            format!("(RX.andThen {} (fun {} => {}))", lv_opt(&m.receiver, cx), id.ident, lv_opt(&c.body, &cx2))
+        }
+        other => fail(&format!("list-view: unsupported Option method `{other}`")),
+    }
+}
+
+/// the value a function returns: Ok(…) / Err(…) / if-else / an Option chain closed by ok_or_else
+fn lv_ret(e: &syn::Expr, cx: &LvCtx) -> String {
+    let e = unparen(e);
+    match e {
+        syn::Expr::Return(r) => lv_ret(r.expr.as_ref().unwrap_or_else(|| fail("bare return")), cx),
+        syn::Expr::Call(c) => {
+            let syn::Expr::Path(p) = &*c.func else { fail("list-view: unsupported call in return position") };
+            match p.path.segments.last().unwrap().ident.to_string().as_str() {
+                "Ok" => match unparen(&c.args[0]) {
+                    // Ok(Layout { length_range: a..b, data_range: c..d }) -> the four bounds, in field order
+                    syn::Expr::Struct(s) => {
+                        let mut bounds = vec![];
+                        for f in &s.fields {
+                            let syn::Expr::Range(r) = unparen(&f.expr) else { fail("list-view: Layout field is not a range") };
+                            bounds.push(lv_num(r.start.as_ref().unwrap_or_else(|| fail("open range")), cx));
+                            bounds.push(lv_num(r.end.as_ref().unwrap_or_else(|| fail("open range")), cx));
+                        }
+                        format!("(RX.okList [{}])", bounds.join(", "))
+                    }
+                    other => lv_num(other, cx),
+                },
+                "Err" => format!("(Res.err {})", lv_err(&c.args[0], cx)),
+                other => fail(&format!("list-view: unsupported return value `{other}(…)`")),
+            }
+        }
+        syn::Expr::If(i) => {
+            let Some((_, els)) = &i.else_branch else { fail("list-view: `if` without else in return position") };
+            let els_s = match &**els { syn::Expr::Block(b) => lv_block(&b.block.stmts, cx), other => lv_ret(other, cx) };
+            format!("(RX.ifN {} (fun _ => {}) (fun _ => {}))", lv_bool(&i.cond, cx), lv_block(&i.then_branch.stmts, cx), els_s)
+        }
+        syn::Expr::MethodCall(m) if m.method == "ok_or_else" || m.method == "ok_or" => {
+            let err = match unparen(&m.args[0]) { syn::Expr::Closure(c) => lv_err(&c.body, cx), other => lv_err(other, cx) };
+            format!("(RX.okOrElse {} {err})", lv_opt(&m.receiver, cx))
+        }
+        _ => fail("list-view: unsupported expression in return position"),
+    }
+}
+
+fn lv_block(stmts: &[syn::Stmt], cx: &LvCtx) -> String {
+    let Some((first, rest)) = stmts.split_first() else { fail("list-view: block without a value") };
+    match first {
+        syn::Stmt::Expr(e, _) if rest.is_empty() => lv_ret(e, cx),
+        syn::Stmt::Expr(syn::Expr::If(i), _) if i.else_branch.is_none() => {
+            let ret = returns(&i.then_branch).unwrap_or_else(|| fail("list-view: `if` statement that is not an early return"));
+            format!("(RX.ifN {} (fun _ => {}) (fun _ => {}))", lv_bool(&i.cond, cx), lv_ret(ret, cx), lv_block(rest, cx))
+        }
+        syn::Stmt::Local(l) => {
+            let syn::Pat::Ident(id) = &l.pat else { fail("list-view: unsupported `let` pattern") };
+            let init = l.init.as_ref().unwrap_or_else(|| fail("`let` without a value"));
+            let val = lv_num(&init.expr, cx);
+            let mut nats = cx.nats.clone();
+            nats.push(id.ident.to_string());
+            let cx2 = LvCtx { nats, errs: cx.errs, fns: cx.fns };
+            format!("(RX.bindNN {val} (fun {} => {}))", id.ident, lv_block(rest, &cx2))
+        }
+        _ => fail("list-view: unsupported statement form"),
+    }
+}
+
+fn gen_listview_fns(repo: &Path, out: &Path) {
+    let lv = parse_file(&repo.join("list-view/src/list_view.rs"));
+    let errs_file = parse_file(&repo.join("list-view/src/error.rs"));
+    // ListViewError discriminants (`e as u32`): explicit or previous + 1
+    let mut errs = std::collections::BTreeMap::new();
+    for it in &errs_file.items {
+        if let syn::Item::Enum(e) = it {
+            if e.ident == "ListViewError" {
+                let mut next: i128 = 0;
+                for v in &e.variants {
+                    if let Some((_, d)) = &v.discriminant { next = eval(d, &Consts::new()).unwrap_or_else(|| fail("ListViewError discriminant")); }
+                    errs.insert(v.ident.to_string(), next);
+                    next += 1;
+                }
+            }
+        }
+    }
+    if errs.is_empty() { fail("enum ListViewError not found") }
+    let mut s = String::new();
+    writeln!(s, "-- GENERATED by /verif/harness `extract` from /repo/list-view/src/list_view.rs — do not edit").unwrap();
+    writeln!(s, "-- the layout arithmetic of ListView<T, L>, statement by statement; T and L enter only through their size and alignment").unwrap();
+    writeln!(s, "import SplModel.RustExpr\nnamespace Gen.ListViewFns\n").unwrap();
+    let order = ["header_padding", "size_of", "calculate_layout"];
+    for (k, f) in order.iter().enumerate() {
+        let item = find_impl_fn(&lv, "ListView", f).unwrap_or_else(|| fail(&format!("ListView::{f} not found")));
+        let mut nats = vec![];
+        let mut binder = String::new();
+        for a in &item.sig.inputs {
+            let syn::FnArg::Typed(t) = a else { fail("list-view: receiver parameter") };
+            let syn::Pat::Ident(id) = &*t.pat else { fail("list-view: parameter pattern") };
+            if quote_type(&t.ty) != "usize" { fail(&format!("ListView::{f}: parameter type")) }
+            nats.push(id.ident.to_string());
+            binder.push_str(&format!(" ({} : Nat)", id.ident));
+        }
+        let cx = LvCtx { nats, errs: &errs, fns: &order[..k] };
+        let ty = if *f == "calculate_layout" { "Res (List Nat)" } else { "Res Nat" };
+        writeln!(s, "/-- `ListView::<T, L>::{f}` -/\ndef {f} (sizeT alignT sizeL alignL : Nat){binder} : {ty} :=\n  {}\n", lv_block(&item.block.stmts, &cx)).unwrap();
+    }
+    writeln!(s, "end Gen.ListViewFns").unwrap();
+    write_if_changed(&out.join("ListViewFns.lean"), &s);
 }
